@@ -248,7 +248,12 @@ func (s *Sim) taskMain(t *Task, f func()) {
 	defer func() {
 		if r := recover(); r != nil {
 			s.mu.Lock()
-			s.rep.Panics = append(s.rep.Panics, PanicRec{Task: t.String(), Value: fmt.Sprint(r), Stack: string(debug.Stack())})
+			if msg := fmt.Sprint(r); strings.HasPrefix(msg, "simrt:") {
+				// the simulator's own complaint (an operation it cannot model), not a panic of the code under test
+				s.rep.HarnessError = msg + "\n" + string(debug.Stack())
+			} else {
+				s.rep.Panics = append(s.rep.Panics, PanicRec{Task: t.String(), Value: msg, Stack: string(debug.Stack())})
+			}
 			s.mu.Unlock()
 		}
 	}()
